@@ -227,11 +227,21 @@ def finalize_replica(rep, tr, cell):
             "ess": rep["untrimmed"]["ess"]}
 
 
-def bias_test(vals, alpha, a_coef, a_cap=float("inf")):
-    """|mean| <= t*(alpha) s/sqrt(R) + min(a*s^2, a_cap) ; returns (mean, sd, allowed, flagged).
-    The cap keeps a defect that inflates the spread itself from buying its own allowance."""
+def bias_test(vals, alpha, a_coef, a_cap=float("inf"), s2_extra=0.0):
+    """|mean| <= t*(alpha) s/sqrt(R) + min(a*(s^2 + s2_extra), a_cap) ; returns (mean, sd, allowed, flagged).
+    The cap keeps a defect that inflates the spread itself from buying its own allowance. s2_extra: variance of another
+    estimate that enters this one quadratically (a variance estimate m2 - m1^2 is biased by -Var(m1), whatever its own spread)."""
     v = np.asarray(vals, dtype=float)
     R = len(v)
     m, s = float(v.mean()), float(v.std(ddof=1))
-    allowed = float(stats.t.isf(alpha / 2, R - 1)) * s / math.sqrt(R) + min(a_coef * s * s, a_cap)
+    allowed = float(stats.t.isf(alpha / 2, R - 1)) * s / math.sqrt(R) + min(a_coef * (s * s + float(s2_extra)), a_cap)
     return m, s, allowed, abs(m) > allowed
+
+
+def quadratic_partner_var(key, reps):
+    """For a variance estimand '<estimator>:var<j>' the per-run variance of the standardised mean '<estimator>:mean<j>' (0 otherwise)."""
+    if ":var" not in key:
+        return 0.0
+    partner = key.replace(":var", ":mean")
+    vals = [r["errs"][partner] for r in reps if "errs" in r and partner in r["errs"]]
+    return float(np.var(vals, ddof=1)) if len(vals) > 1 else 0.0
